@@ -118,6 +118,7 @@ fn main() {
     let mut thorough = false;
     let mut replay: Option<String> = None;
     let mut skip_enum = false;
+    let mut shard: (u64, u64) = (0, 1);
     let mut i = 2;
     while i < args.len() {
         match args[i].as_str() {
@@ -131,6 +132,12 @@ fn main() {
             }
             "--thorough" => thorough = true,
             "--no-enum" => skip_enum = true,
+            "--shard" => {
+                // `--shard i n`: run only every n-th enumerated case (offset i); random cases are
+                // sharded by the caller through --seed / --cases
+                shard = (args[i + 1].parse().expect("shard index"), args[i + 2].parse().expect("shard count"));
+                i += 2
+            }
             "--replay" => {
                 replay = Some(args[i + 1].clone());
                 i += 1
@@ -147,6 +154,7 @@ fn main() {
     let mut out = std::io::BufWriter::with_capacity(1 << 20, stdout.lock());
     let mut stats = Stats { tags: Default::default(), cases: 0, ops: 0, panics: 0, violations: 0 };
 
+    let mut enumerated = 0u64;
     if let Some(path) = replay {
         // Replay: `C`/`I` lines from a file; every other line is ignored.
         let text = std::fs::read_to_string(&path).expect("replay file");
@@ -175,12 +183,14 @@ fn main() {
     } else {
         let mut idx = 0u64;
         if !skip_enum {
-            for ops in fam.enumerated(thorough) {
-                run_case(&mut out, fam.as_ref(), idx, &ops, &mut stats);
-                idx += 1;
+            for (k, ops) in fam.enumerated(thorough).into_iter().enumerate() {
+                if (k as u64) % shard.1 == shard.0 {
+                    run_case(&mut out, fam.as_ref(), idx, &ops, &mut stats);
+                    idx += 1;
+                }
             }
         }
-        writeln!(out, "# enumerated {}", idx).unwrap();
+        enumerated = idx;
         let base = Rng::new(seed);
         for k in 0..cases {
             let mut rng = base.fork(k);
@@ -189,6 +199,7 @@ fn main() {
             idx += 1;
         }
     }
+    writeln!(out, "# enumerated {}", enumerated).unwrap();
     writeln!(out, "# cases {}", stats.cases).unwrap();
     writeln!(out, "# ops {}", stats.ops).unwrap();
     writeln!(out, "# panics {}", stats.panics).unwrap();
